@@ -132,7 +132,9 @@ func (r *Run) Explore(x XSpec) XResult {
 							x.Ops[o].Do(obj)
 						}
 						if got := x.Snap(obj); got != node.snap {
-							r.HarnessError("xstate %s: replay of path %v diverged (nondeterministic implementation or harness)", x.Name, node.path)
+							// the same operations on a fresh object reached a different state: the
+							// implementation keeps state outside the object (shared between instances)
+							c.Fail("xstate/"+x.Name+"/same-operations-reach-different-state", fmt.Sprintf("search %s: the operations %v applied to a fresh object reach a state that differs from the one they reached before: state is shared between separately created objects (or survives them)", x.Name, x.PathNames(node.path)), map[string]string{"before": node.snap, "now": got})
 							return
 						}
 						res := x.Ops[op].Do(obj)
@@ -226,10 +228,7 @@ func (r *Run) Explore(x XSpec) XResult {
 				}
 			}
 			if !found {
-				r.HarnessError("violation %q (search %s path %v) did not reproduce on re-execution %d", k, x.Name, v.Path, rep+1)
-				r.mu.Lock()
-				delete(r.viol, k)
-				r.mu.Unlock()
+				r.unstable(k, fmt.Sprintf("search %s path %v failed during the search and passes on re-execution %d alone", x.Name, v.Path, rep+1))
 				break
 			}
 		}
